@@ -222,7 +222,8 @@ def _t1_cases(shape: tuple, tier: str) -> list[tuple]:
     out = []
     for scheme in H.T1_SCHEMES:
         for root in ("array", "dict"):
-            if root == "dict" and tier == "quick" and scheme not in (
+            small = tier == "quick" or len(shape[0]) >= 5      # 5-node shapes: the subset
+            if root == "dict" and small and scheme not in (
                     "il", "mixed0", "stack", "call", "ilshape"):
                 continue
             out.append((scheme, root, "mix" if scheme.startswith("mixed") else
@@ -398,7 +399,7 @@ def _work_t2(args: tuple) -> dict:
                         continue
                     if flt is None and ename in (
                             "generate_loopy", "generate_numpy_like",
-                            "codegen.preprocess") and (si % 4 != 0 and tier == "quick"):
+                            "codegen.preprocess") and si % 12 != 0:
                         continue
                     r = H.run_entry(ename, fn, root, H.Interner(), case, profiles, classes)
                     stats["entry_runs"] += 1
@@ -433,6 +434,60 @@ def _work_t2(args: tuple) -> dict:
                         f.update(case=case)
                     findings += r["findings"]
                     records += r["records"]
+    return {"records": records, "findings": findings, "stats": stats}
+
+
+def _exclusive_kinds(g: Any) -> list[str]:
+    """edge kinds K such that some node of g is reachable ONLY through edges
+    of kind K"""
+    inc: dict[int, set[str]] = {}
+    for k in range(g.n):
+        for c, kd in zip(g.ch[k], g.ek[k]):
+            inc.setdefault(c, set()).add(kd)
+    return sorted({next(iter(ks)) for ks in inc.values() if len(ks) == 1})
+
+
+def _work_t3(args: tuple) -> dict:
+    """deterministic edge-kind witnesses: every entry point and every
+    directly instantiable mapper class on every witness graph"""
+    name, flt = args
+    H = _W["H"]
+    profiles = _W["profiles"]
+    classes = _W.setdefault("classes", H.discover_mappers())
+    entries = _W.setdefault("entries", H.entry_points())
+    root = H.witness_graphs()[name]
+    case = f"t3/{name}"
+    records, findings = [], []
+    g0 = H.reflect(root)
+    stats: dict[str, Any] = {"witness_runs": 0, "witness_exclusive": {name: _exclusive_kinds(g0)},
+                             "entry_classes": {}, "entry_exceptions": {}}
+    for ename, fn in entries.items():
+        if flt is not None and flt.get("entry") and ename != flt["entry"]:
+            continue
+        if flt is not None and not flt.get("entry"):
+            break
+        r = H.run_entry(ename, fn, root, H.Interner(), case, profiles, classes)
+        stats["witness_runs"] += 1
+        for k, c in r["classes"].items():
+            stats["entry_classes"][k] = stats["entry_classes"].get(k, 0) + c
+        if r["exc"]:
+            kx = f"{ename}: {r['exc'][:80]}"
+            stats["entry_exceptions"][kx] = stats["entry_exceptions"].get(kx, 0) + 1
+        for f in r["findings"]:
+            f.update(case=case)
+        findings += r["findings"]
+        records += r["records"]
+    for pname, prof in profiles.items():
+        if prof.skip:
+            continue
+        if flt is not None and (flt.get("entry") or not pname.startswith(flt["mapper"])):
+            continue
+        r = H.run_direct(pname, prof, root, H.Interner(), case)
+        stats["witness_runs"] += 1
+        for f in r["findings"]:
+            f.update(case=case, mapper=pname)
+        findings += r["findings"]
+        records += r["records"]
     return {"records": records, "findings": findings, "stats": stats}
 
 
@@ -474,6 +529,8 @@ def _merge(a: dict, b: dict) -> None:
     for k, v in b.items():
         if isinstance(v, dict):
             _merge(a.setdefault(k, {}), v)
+        elif isinstance(v, list):
+            a[k] = sorted(set(a.get(k, [])) | set(v))
         else:
             a[k] = a.get(k, 0) + v
 
@@ -511,24 +568,28 @@ def main(tier: str, only: dict | None = None) -> int:
     ladders = [(l, sc, depth) for l in H.ladder_shapes(depth)
                for sc in (H.LADDER_SCHEMES + ["mixed0", "mixed1"] if tier == "thorough"
                           else ["il", "csr", "send", "call", "dict", "mixed0"])]
-    t2shapes = indexed if tier == "thorough" else indexed[::3]
+    t2shapes = indexed[::3]
     t2chunks = [t2shapes[i::NCPU * 2] for i in range(NCPU * 2) if t2shapes[i::NCPU * 2]]
     with mp.Pool(NCPU, initializer=_winit, initargs=(gen["expect"],)) as pool:
         if only is None:
+            a_t3 = pool.map_async(_work_t3, [(w, None) for w in H.witness_graphs()],
+                                  chunksize=1)
             a_lad = pool.map_async(_work_ladder, ladders, chunksize=1)
             a_t2 = pool.map_async(_work_t2, [(c, tier) for c in t2chunks], chunksize=1)
-            parts = pool.map_async(_work_t1, [(c, tier) for c in chunks]).get(1700)
-            parts += a_lad.get(1700) + a_t2.get(1700)
+            parts = pool.map_async(_work_t1, [(c, tier) for c in chunks]).get(2400)
+            parts += a_lad.get(2400) + a_t2.get(2400) + a_t3.get(2400)
+        elif flt["kind"] == "t3":
+            parts = pool.map_async(_work_t3, [(only["case"].split("/")[1], flt)]).get(2400)
         elif flt["kind"] == "t1":
-            parts = pool.map_async(_work_t1, [(indexed, tier, flt)]).get(1700)
+            parts = pool.map_async(_work_t1, [(indexed, tier, flt)]).get(2400)
         elif flt["kind"] == "t2":
-            parts = pool.map_async(_work_t2, [(indexed, tier, flt)]).get(1700)
+            parts = pool.map_async(_work_t2, [(indexed, tier, flt)]).get(2400)
         else:
             _, lname, scheme = only["case"].split("/")
             parts = pool.map_async(_work_ladder, [
                 (l, sc, d) for l, sc, d in ladders
                 if (l[0], sc) == (lname, scheme)] or [
-                (l, scheme, depth) for l in H.ladder_shapes(depth) if l[0] == lname]).get(1700)
+                (l, scheme, depth) for l in H.ladder_shapes(depth) if l[0] == lname]).get(2400)
     records, findings, stats = [], [], {}
     for p in parts:
         records += p["records"]
@@ -563,6 +624,12 @@ def main(tier: str, only: dict | None = None) -> int:
                 f"{f['case']}|{f['mapper']}" in rejected:
             continue        # the trace verdict names the clause
         report(run, f, byid)
+    # which mapper class was validated on which deterministic witness graph
+    wit: dict[str, set] = {}
+    for r in records:
+        case, pname, _ = r["id"].split("|")
+        if case.startswith("t3/"):
+            wit.setdefault(pname.split("@")[0].split("#")[0], set()).add(case[3:])
     classes = H.discover_mappers()
     profiles = H.make_profiles()
     skipped = {k: profiles[k].skip for k in profiles if profiles[k].skip}
@@ -588,6 +655,10 @@ def main(tier: str, only: dict | None = None) -> int:
         "mapper_classes_discovered": len(classes),
         "mapper_classes_skipped": skipped, "mapper_classes_without_profile": untabled,
         "tlc_trace_runs": val.runs, "tlc_trace_wall_s": round(val.wall, 1),
+        "witness_exclusive_edge_kinds": stats.get("witness_exclusive", {}),
+        "witness_graphs_per_class": {k: sorted(v) for k, v in sorted(wit.items())},
+        "entry_classes": stats.get("entry_classes", {}),
+        "entry_exceptions": stats.get("entry_exceptions", {}),
     })
     for r in uniq[:2]:
         run.sample(r)
